@@ -11,7 +11,9 @@
   the value, leaves exactly that following text and the backtracking stack as it found it.
 
   The location column of the feature table is taken from C06: `LocRT l` (the printed location is
-  read back by `ParseLocation`) is a hypothesis here.
+  read back by `ParseLocation` in front of a line feed) holds for every canonical location
+  (`Loc.canonP`, C06 `parse_print_fuel`): `locations_from_C06`.  The `_canon` theorems use that and
+  have only decidable hypotheses.
 
   Known findings (each: the refuted full statement at a witness, and the `_partial` theorem whose
   guard excludes exactly the finding's shape):
@@ -22,6 +24,7 @@
     K1E  a double quote inside a quoted value ends the value                      (quote_*)
 -/
 import Gts.Lemmas.GbReadWrite
+import Gts.Lemmas.GbLocRT
 namespace Gts.C01
 open Gts Gts.Pars Gts.GenBank
 
@@ -331,6 +334,20 @@ theorem record_end (length : Int) (k : Nat) (s : Sub) (rest : Bytes) :
     recordLoop length 12 (k + 1) s ⟨bs "//\n" ++ rest, []⟩ = (.ok s, ⟨rest, []⟩) :=
   loop_end length k s rest
 
+/-- **C06 → C01**: the printed form of every canonical location is read back by `ParseLocation` at
+the end of a key line. -/
+theorem locations_from_C06 (l : Loc) (h : Loc.canonP l = true) : LocRT l := locRT_of_canon l h
+
+/-- the FEATURES round trip with decidable hypotheses only -/
+theorem features_roundtrip_canon (reg : Registry) (ft : QFeature) (fs : List QFeature) (rest : Bytes)
+    (stk : List Bytes) (hw : tableWritable reg (ft :: fs) = true)
+    (hloc : (ft :: fs).all (fun x => Loc.canonP x.loc) = true) (hrest : (sp 5).isPrefixOf rest = false) :
+    ∃ t, tableText reg (ft :: fs) = .ok t ∧
+      featuresField reg ⟨bs "FEATURES             Location/Qualifiers\n" ++ (t ++ 10 :: rest), stk⟩ =
+        (.ok ((ft :: fs).map (readFeature reg), learnTable reg (ft :: fs)), ⟨rest, []⟩) :=
+  GenBank.features_roundtrip reg ft fs rest stk hw
+    (fun x hx => locRT_of_canon x.loc (List.all_eq_true.mp hloc x hx)) hrest
+
 /-! ## the composition -/
 
 /-- **read (write r).**  For a record of the decidable domain `Writable reg r p` (`p` its residues;
@@ -345,6 +362,20 @@ theorem read_write (reg : Registry) (r : Record) (p : Bytes) (ho : r.origin = .r
       genbankParser reg ⟨t ++ rest', []⟩ = (.ok (readBack reg r p, learnTable reg r.table), ⟨rest', []⟩)) ∧
     reg.le (learnTable reg r.table) :=
   ⟨GenBank.read_write reg r p ho hw hloc rest', learnTable_le reg r.table⟩
+
+/-- the decidable domain of the whole round trip: `Writable` and canonical locations (C06) -/
+def WritableRecord (reg : Registry) (r : Record) (p : Bytes) : Bool :=
+  Writable reg r p && r.table.all fun f => Loc.canonP f.loc
+
+/-- **read (write r)** with decidable hypotheses only. -/
+theorem read_write_canon (reg : Registry) (r : Record) (p : Bytes) (ho : r.origin = .residues p)
+    (hw : WritableRecord reg r p = true) (rest' : Bytes) :
+    ∃ t, write reg r = .ok t ∧
+      genbankParser reg ⟨t ++ rest', []⟩ = (.ok (readBack reg r p, learnTable reg r.table), ⟨rest', []⟩) := by
+  simp only [WritableRecord, Bool.and_eq_true] at hw
+  obtain ⟨t, h1, _, h2⟩ := GenBank.read_write reg r p ho hw.1
+    (fun x hx => locRT_of_canon x.loc (List.all_eq_true.mp hw.2 x hx)) rest'
+  exact ⟨t, h1, h2⟩
 
 /-- **fidelity**, proved part: with no region (`noRegion`, K1A) and a species that fits its line
 (`fits`, K1C) the header fields that come back are the fields that were written; the table comes
